@@ -277,3 +277,54 @@ def flag_provenance(ctx, rule, flag, family=('assert_limits', 'engine_on'), floo
                                                                (' — it derives from `%s`' % '`, `'.join(sorted(other))) if other else ' — the caller\'s own flag is not used'),
                           ctx.where(b, c.span))
     ctx.floor('call sites handing `%s` on' % flag, n, floor)
+
+
+def value_passthrough(ctx, rule, name, derived=(), floor=3):
+    """A quantity that is handed down a call chain under one name (`pwr_out_req`: the power a unit was solved for; `dt`) reaches each
+    callee unchanged: at every call whose callee has a parameter called `name`, made from a function that has one too, the value
+    passed IS the caller's parameter — not a gated, clamped or re-derived version of it.  `derived` lists the (caller, callee)
+    pairs where the callee's quantity is by design a different one (a share of it, or the shaft power derived from it); those are
+    decided by their own clauses."""
+    import re as _re
+    from sa.cfg import CFG
+    from sa.terms import show
+    prog = ctx.prog
+
+    def pnames(b):
+        out = {}
+        for k, v in b.debug.items():
+            m = _re.fullmatch(r'_(\d+)', v)
+            if m and 1 <= int(m.group(1)) <= b.nparams:
+                out.setdefault(int(m.group(1)), k)
+        return out
+    has = {}
+    for b in prog.bodies:
+        if b.kind == 'fn' and not b.test:
+            for n_, nm in pnames(b).items():
+                if nm == name:
+                    has[b.fid] = n_
+    n = 0
+    for b in prog.bodies:
+        if b.kind != 'fn' or b.test or b.fid not in has:
+            continue
+        if not any(x.fid in has for bn, t in CFG(b).call_sites() for x in prog.resolve(t.callee)):
+            continue
+        an = analysis_or_fail(ctx, rule, b)
+        if an is None:
+            continue
+        try:
+            own = an.arg(name)
+        except KeyError:
+            continue
+        for c in an.calls:
+            for x in (c.targets or []):
+                if x not in has or len(c.argvals) < has[x] or (b.fid, x) in derived:
+                    continue
+                v = c.argvals[has[x] - 1]
+                n += 1
+                key = '%s -> %s' % (b.fid, x)
+                k2 = sum(1 for r_ in ctx.results if r_.rule == rule and r_.key.startswith(key))
+                if k2:
+                    key += ' #%d' % (k2 + 1)
+                ctx.check(v == own, rule, key, '`%s` is handed on unchanged' % name, 'the value passed for `%s` is %s' % (name, show(v, an.names)[:160]), ctx.where(b, c.span))
+    ctx.floor('call sites handing `%s` on' % name, n, floor)
